@@ -273,7 +273,9 @@ RoundTripConds(r, exp) ==
     THEN LET it == issued[call.a.sreg]
          IN IF call.a.coin = it.coin
             \* (C17: "every phrase the library produces can be fed back to the decoder")
-            THEN << Cond("own-phrase-decodes-to-the-same-seed", {"C01", "C05", "C13", "C17"},
+            \* (C07: "every word, typed in full, is recognised as its own index and no other"; C08: "a valid phrase ...
+            \* decodes to the same seed")
+            THEN << Cond("own-phrase-decodes-to-the-same-seed", {"C01", "C05", "C13", "C17", "C07", "C08"},
                          (~AllocFailed /\ Supported(it.seed.features, mask)) =>
                             \/ (r.st = StOK /\ exp.st = StOK /\ exp.seed = it.seed
                                    /\ (call.op = "Decode" => exp.lang = it.lang))
